@@ -7,7 +7,7 @@
     the standard digest [oneshot bs = fin (upd init bs)] is assumed injective on the compared
     payloads.  These are premises of the theorems, not axioms. *)
 From Coq Require Import List String Ascii NArith Bool.
-From MV Require Import Base.Sx Base.Cmp Util.DirHash Util.DirHashProofs.
+From MV Require Import Base.Sx Base.Cmp Util.DirHash Util.DirHashProofs Util.DirHashChain Util.DirHashChainProofs.
 Import ListNotations.
 Local Open Scope string_scope.
 
@@ -227,4 +227,134 @@ Example C19_nonvacuous_chunks :
   rel_symlink ["W"; "c"] ["sub"] false [".."; ".."; "c"; "."; "f"] = In_ ["f"] /\
   rel_symlink ["W"; "c"] ["sub"] false [".."; ".."; "o"; "f"] = Outside /\
   rel_symlink ["W"; "c"] [] true [""; "W"; "c"; "sub"; ""] = In_ ["sub"].
+Proof. vm_compute. repeat split. Qed.
+
+(** ** Symlink chains (links to links, link texts through symlinked directories, loops).
+    [Util/DirHashChain.v] transcribes [posixpath._joinrealpath] as run by [Path.resolve]; the
+    world is one raw tree rooted at "/", so links outside the hashed directory take part. *)
+
+(** With chains the code identifies directories by names, file bytes, sub-directories and the
+    FINAL (fully resolved) targets of their links: [final_tree] replaces every link by where
+    its chain ends.  This is weaker than comparing link TEXTS: see [C19_chain_observation]. *)
+Theorem C19_chain_identify :
+  forall (state : Type) (init : state) (upd : state -> bytes -> state) (fin : state -> digest),
+    (forall s x y, upd (upd s x) y = upd s (x ++ y)%list) ->
+    (forall s, upd s [] = s) ->
+    (forall x y, oneshot state init upd fin x = oneshot state init upd fin y -> x = y) ->
+    forall n a w1 f1 b1 w2 f2 b2,
+      n > 0 ->
+      wfb (final_tree w1 f1 b1) = true -> wfb (final_tree w2 f2 b2) = true ->
+      no_outsideb (final_tree w1 f1 b1) = true -> no_outsideb (final_tree w2 f2 b2) = true ->
+      (option_map hsort (dir_hashsums_c state init upd fin n a w1 f1 b1) =
+       option_map hsort (dir_hashsums_c state init upd fin n a w2 f2 b2)
+       <-> tsort (final_tree w1 f1 b1) = tsort (final_tree w2 f2 b2)).
+Proof. exact chain_identify. Qed.
+Print Assumptions C19_chain_identify.
+
+(** When the walk meets no loop, the path recorded for a link is where its chain ENDS: it is
+    the resolved path and no prefix of it is a symlink (given that the link's own directory is
+    physical, which [rglob] guarantees). *)
+Theorem C19_chain_resolution : forall w fuel base linkdir ab segs cur p,
+  physb w (rev (base ++ linkdir)%list) = true ->
+  resolve_raw w fuel base linkdir ab segs = ROk cur ->
+  rel_symlink_c w fuel base linkdir ab segs = In_ p ->
+  rev cur = (base ++ p)%list /\ physb w cur = true.
+Proof. exact rel_symlink_c_final. Qed.
+Print Assumptions C19_chain_resolution.
+
+(** Recorded targets are normalised paths also in the loop case (lexically collapsed path). *)
+Theorem C19_chain_target_valid : forall w fuel base linkdir ab segs p,
+  world_okb w = true -> forallb valid_seg base = true -> forallb valid_seg linkdir = true ->
+  forallb no_slash segs = true ->
+  rel_symlink_c w fuel base linkdir ab segs = In_ p -> forallb valid_seg p = true.
+Proof. exact rel_symlink_c_valid. Qed.
+Print Assumptions C19_chain_target_valid.
+
+Theorem C19_resolve_physical : forall w fuel stk cur segs cur',
+  physb w cur = true -> resolve w fuel stk cur segs = ROk cur' -> physb w cur' = true.
+Proof. exact resolve_phys. Qed.
+Print Assumptions C19_resolve_physical.
+
+(** The call is rejected exactly when some link of the directory does not END below the base:
+    its chain ends outside, loops with ELOOP, or (model artefact) runs out of fuel.  Hops outside
+    that come back in are accepted. *)
+Theorem C19_chain_rejected_iff :
+  forall (state : Type) (init : state) (upd : state -> bytes -> state) (fin : state -> digest)
+         n a w fuel base,
+    dir_hashsums_c state init upd fin n a w fuel base = None <->
+    any_link (ends_outside base) w fuel base [] (base_tree w base) = true.
+Proof. exact chain_rejected_iff. Qed.
+Print Assumptions C19_chain_rejected_iff.
+
+(** Recorded targets are normalised paths (premise [links_okb] of the injectivity proof). *)
+Theorem C19_chain_links_ok : forall w fuel base,
+  world_okb w = true -> forallb valid_seg base = true ->
+  forall t rme, forallb valid_seg rme = true -> raw_okb t = true ->
+  links_okb (cnormalise w fuel base rme t) = true.
+Proof. exact cnormalise_links_ok. Qed.
+Print Assumptions C19_chain_links_ok.
+
+(** Where the walk meets no symlink the extended resolution is the lexical normalisation of
+    the chain-free model, so the theorems above specialise to the earlier ones. *)
+Theorem C19_chain_free_agrees : forall w fuel base linkdir (ab : bool) segs,
+  forallb valid_seg (base ++ linkdir)%list = true ->
+  nolink_walk w (if ab then @nil string else rev (base ++ linkdir)%list) segs = true ->
+  List.length segs < fuel ->
+  rel_symlink_c w fuel base linkdir ab segs = rel_symlink base linkdir ab segs.
+Proof. exact rel_symlink_c_agrees. Qed.
+Print Assumptions C19_chain_free_agrees.
+
+(** Worked cases (world rooted at "/", hashed directory /W/b). *)
+Definition ex_world (es : list (string * rtree)) (outside : list (string * rtree)) : rtree :=
+  RDir [("W", RDir (("b", RDir es) :: outside))].
+Definition fileX : rtree := RFile (list_ascii_of_string "x").
+
+(** OBSERVATION (what the code identifies): [l2 -> l1 -> f] and [l2 -> f] are different
+    directories as far as link texts go, but they have the same final targets and hence the
+    same hashsum tree.  "The same in-directory symlink targets" in the property statement is
+    therefore to be read as "the same resolved targets". *)
+Example C19_chain_observation :
+  let w1 := ex_world [("f", fileX); ("l1", RLink false ["f"]); ("l2", RLink false ["l1"])] [] in
+  let w2 := ex_world [("f", fileX); ("l1", RLink false ["f"]); ("l2", RLink false ["f"])] [] in
+  base_tree w1 ["W"; "b"] <> base_tree w2 ["W"; "b"] /\
+  final_tree w1 50 ["W"; "b"] = final_tree w2 50 ["W"; "b"] /\
+  dir_hashsums_id 64 Sha256 (final_tree w1 50 ["W"; "b"]) =
+  Some (HDir [("f", HStr "sha256:x"); ("l1", HStr "symlink:f"); ("l2", HStr "symlink:f")]).
+Proof. vm_compute. repeat split. discriminate. Qed.
+
+Example C19_chain_cases :
+  let b := ["W"; "b"] in
+  let sub := ("sub", RDir [("deep", RDir []); ("g", fileX); ("up", RLink false [".."])]) in
+  (* through a symlinked directory the walk is physical, not lexical: ld -> sub/deep, ld/../g *)
+  rel_symlink_c (ex_world [sub; ("ld", RLink false ["sub"; "deep"]); ("t", RLink false ["ld"; ".."; "g"])] [])
+                50 b [] false ["ld"; ".."; "g"] = In_ ["sub"; "g"] /\
+  rel_symlink b [] false ["ld"; ".."; "g"] = In_ ["g"] /\
+  (* a chain that leaves the directory and comes back through a link lying outside *)
+  rel_symlink_c (ex_world [sub] [("back", RLink false ["b"; "sub"])]) 50 b [] false [".."; "back"; "g"]
+    = In_ ["sub"; "g"] /\
+  (* a chain that ends outside, two hops *)
+  rel_symlink_c (ex_world [sub; ("l1", RLink false [".."; "o"])] [("o", RLink true [""; "etc"])])
+                50 b [] false ["l1"; "passwd"] = Outside /\
+  (* loops: direct, mutual, through a parent step *)
+  resolve_link (ex_world [("a", RLink false ["a"])] []) 50 b [] false ["a"] = FLoop /\
+  resolve_link (ex_world [("a", RLink false ["c"]); ("c", RLink false ["a"])] []) 50 b [] false ["c"] = FLoop /\
+  resolve_link (ex_world [("x", RLink false ["y"; "z"]); ("y", RLink false ["x"; ".."])] []) 50 b [] false ["y"; "z"] = FLoop /\
+  (* OBSERVATION (CPython): non-strict realpath returns the unresolved path on a loop and abspath
+     collapses ".." lexically; when that removes the looping link, stat sees no ELOOP, nothing
+     is raised and a lexical path is recorded: a -> a/../f gives "f", a -> a/../f/zz gives "f/f/zz" *)
+  resolve_raw (ex_world [("f", fileX); ("a", RLink false ["a"; ".."; "f"])] []) 50 b [] false ["a"; ".."; "f"]
+    = RLoop ["W"; "b"; "a"; ".."; "f"; ".."; "f"] /\
+  rel_symlink_c (ex_world [("f", fileX); ("a", RLink false ["a"; ".."; "f"])] []) 50 b [] false ["a"; ".."; "f"]
+    = In_ ["f"] /\
+  rel_symlink_c (ex_world [("f", fileX); ("a", RLink false ["a"; ".."; "f"; "zz"])] []) 50 b [] false ["a"; ".."; "f"; "zz"]
+    = In_ ["f"; "f"; "zz"] /\
+  (* ... unless the collapsed path runs into a loop again *)
+  resolve_link (ex_world [("k", RLink false ["k"]); ("a", RLink false ["a"; ".."; "k"])] []) 50 b [] false ["a"; ".."; "k"]
+    = FLoop /\
+  (* the same link passed several times is not a loop *)
+  rel_symlink_c (ex_world [sub] []) 50 b [] false ["sub"; "up"; "sub"; "up"; "sub"; "g"] = In_ ["sub"; "g"] /\
+  (* a dangling end of a chain is recorded as it stands *)
+  rel_symlink_c (ex_world [("l9", RLink false ["nowhere"])] []) 50 b [] false ["l9"] = In_ ["nowhere"] /\
+  (* too little fuel is reported as such, never as a loop *)
+  resolve_link (ex_world [sub] []) 2 b [] false ["sub"; "up"; "sub"; "g"] = FFuel.
 Proof. vm_compute. repeat split. Qed.
